@@ -7,6 +7,7 @@ import (
 
 	"github.com/sirupsen/logrus"
 
+	"hop.computer/hop/certs"
 	"hop.computer/hop/common"
 	"hop.computer/hop/config"
 	"hop.computer/hop/core"
@@ -72,4 +73,38 @@ func VH_C09_both_ends_of_a_session_pick_identifiers_of_opposite_parity() {
 	}
 	verifCover("both-created")
 	verifAssert(a.GetID() != b.GetID(), "C09: tubes the two ends of a session create concurrently get distinct identifiers (the ends use opposite identifier parities)")
+}
+
+// C01 (client side): whatever the host configuration, the client ASKS for a
+// name - the verification options it hands to the transport never carry the
+// zero name (which would switch the name check off), and the name is the one
+// the configuration designates: ServerName, else ServerIPv4, else ServerIPv6,
+// else the host name.
+//
+//verif:prop C01
+//verif:bounds ServerName, ServerIPv4, ServerIPv6, Hostname each empty or one symbolic byte (all 16 combinations, including all empty)
+//verif:cover built
+func VH_C01_client_always_requests_the_configured_server_name() {
+	opt := func(tag string) string {
+		if verifBool(tag + "-set") {
+			return verifString(tag, 1)
+		}
+		return ""
+	}
+	hc := &config.HostConfig{ServerName: opt("ServerName"), ServerIPv4: opt("ServerIPv4"), ServerIPv6: opt("ServerIPv6"), Hostname: opt("Hostname")}
+	v := constructVerifyConfig(hc)
+	verifCover("built")
+	verifAssert(!v.Name.IsZero(), "C01: the client never hands the transport the zero name (the leaf's name is always checked)")
+	verifAssert(!v.InsecureSkipVerify, "C01: verification is not switched off by constructing the options")
+	want, typ := hc.Hostname, certs.TypeDNSName
+	switch {
+	case hc.ServerName != "":
+		want = hc.ServerName
+	case hc.ServerIPv4 != "":
+		want, typ = hc.ServerIPv4, certs.TypeIPv4Address
+	case hc.ServerIPv6 != "":
+		want, typ = hc.ServerIPv6, certs.TypeIPv6Address
+	}
+	verifAssert(v.Name.Type == typ, "C01: the requested name has the type of the configured field")
+	verifAssertStrEq(string(v.Name.Label), want, "C01: the requested name is the configured server name / address / host name")
 }
